@@ -43,7 +43,7 @@ func vortexJobs(c *mon.Ctx) []job {
 	cols := []int{1, 2, 4, 8, 16, 64}
 	rows := []int{1, 2, 3, 8, 17, 5}
 	if c.Thorough() {
-		cols = []int{1, 2, 4, 8, 16, 32, 64, 128, 256, 1024}
+		cols = []int{1, 2, 4, 8, 16, 32, 64, 128, 256, 512}
 		rows = []int{1, 2, 3, 8, 17, 5, 64, 33, 300, 4}
 	}
 	sisP := [][2]int{{4, 8}, {9, 16}, {6, 16}, {5, 8}} // degree >= 16: Commit hashes 16 columns at a time and reads 16-element blocks of each SIS hash
